@@ -220,7 +220,7 @@ Proof.
   induction n as [|n IH]; intros e f st r st' P H E.
   - rewrite geval_O in E. inversion E; subst. exact I.
   - rewrite geval_S in E.
-    destruct e as [l|es|es|e1|e1|e1|plus sep omitsep e1|neg e1|e1|rr|il nm e1|il e1].
+    destruct e as [l|es|es|e1|e1|e1|plus sep omitsep e1|neg e1|e1|lft e1|rr|il nm e1|il e1].
     + eapply leaf_trb; eassumption.
     + assert (HA : pos (add_defined unsafe (Seq es) f) = pos f) by apply pos_add_defined.
       pose proof (seq_go_trb _ IH es VNone (add_defined unsafe (Seq es) f) st r st' P ltac:(rewrite HA; exact H) E) as R.
@@ -245,6 +245,10 @@ Proof.
       * ok_of IH P E1 P1 B1. split; [exact P1|lia].
       * fail_of IH P E1 P1. exact P1.
     + eapply skipto_go_trb; eassumption.
+    + destruct (gev n e1 (push f) st) as [[v f1|c|x] st1] eqn:E1; inversion E; subst; cbn.
+      * ok_of IH P E1 P1 B1. split; [exact P1|exact B1].
+      * fail_of IH P E1 P1. exact P1.
+      * exact I.
     + eapply call_trb; [exact IH|exact P|exact H|exact E].
     + destruct il; destruct (gev n e1 f st) as [[v f1|c|x] st1] eqn:E1; inversion E; subst; cbn; try exact I;
         first [ ok_of IH P E1 P1 B1; split; [exact P1|exact B1] | fail_of IH P E1 P1; exact P1 ].
